@@ -73,6 +73,34 @@ Theorem C06_balance_rule_is_source :
 Proof. exact PaymentsGenProofs.gen_balance_is_model. Qed.
 Print Assumptions C06_balance_rule_is_source.
 
+(** Preimages.  The record that the "tolerated for a hash with a payment record" rule reads, and
+    that decides which HTLC outputs of a force-closed channel are the node's to claim, is never
+    lost by a restart once it carries a preimage: in every reachable state a hash whose preimage
+    is recorded has a payment record, and a restart keeps both. *)
+Theorem C06_preimage_records_survive_restart :
+  forall (nch : nat) (max_fee_msat max_fee_pct : N) (ops : list pop) (h : N),
+    let s := prun nch max_fee_msat max_fee_pct pinit ops in
+    pre s h = true ->
+    known s h = true /\
+    let s' := fst (pstep nch max_fee_msat max_fee_pct s PRestart) in
+    pre s' h = true /\ known s' h = true.
+Proof.
+  intros nch mf mp ops h s Hp. split.
+  - exact (prun_pre_known nch mf mp ops pinit (PreKnown_init) h Hp).
+  - cbn [pstep fst]. rewrite restore_pre. split; [exact Hp | exact (restore_known_of_pre nch s h Hp)].
+Qed.
+Print Assumptions C06_preimage_records_survive_restart.
+
+(** ... and a preimage handed over for a hash that has a payment record is recorded at once. *)
+Theorem C06_fulfil_records_preimage :
+  forall (nch : nat) (max_fee_msat max_fee_pct : N) (s : pnode) (h : N),
+    known s h = true ->
+    let s1 := fst (pstep nch max_fee_msat max_fee_pct s (PFulfil h)) in
+    let s2 := fst (pstep nch max_fee_msat max_fee_pct s1 PRestart) in
+    pre s1 h = true /\ pre s2 h = true /\ known s2 h = true.
+Proof. exact fulfil_then_restart. Qed.
+Print Assumptions C06_fulfil_records_preimage.
+
 (** Non-vacuity: an approved 100 000 sat payment split over two channels up to exactly the
     approved amount plus the allowance, one more satoshi refused, a restart in between. *)
 Example C06_nonvacuous :
